@@ -249,7 +249,7 @@ class Gen:
         """source type of a cast to t: mostly the same signedness / kind (sign-changing and
         float->int casts carry known divergences on out-of-range values)"""
         rng = self.rng
-        if rng.random() < 0.55:
+        if rng.random() < 0.35:
             same = [u for u, _ in TYPE_W if u != t and is_int(u) == is_int(t) and (not is_int(t) or signed(u) == signed(t))]
             if same:
                 return rng.choice(same)
@@ -1050,7 +1050,10 @@ def extra(ctx):
 
 
 RULE = ("typed-by-construction Arc functions (1-3 parameters over i8..u64,f32,f64; 0-4 statements + return; "
-        "declarations, assignments, compound assignments, if/else-if/else nested to depth 2, early returns; "
+        "declarations, assignments, compound assignments, if/else-if(x0-3)/else nested to depth 2, early returns; "
+        "in 40% of the programs bounded loops (range with 1-3 arguments incl. negative steps, counter-controlled "
+        "condition loops, 'for {}' with a guarded break) nested to depth 2, with break/continue/return placed in "
+        "if / else-if / final-else branches whose conditions depend on the loop variable; "
         "expressions to depth 4 over literals (boundary values of each width), variables, unary -/not, "
         "^ * / % + -, comparisons, and/or, casts; minimal parentheses by the spec's precedence table), each "
         "called on 8-12 argument vectors (0, +-1, min, max, max-1, powers of two at every width, NaN, +-inf, "
@@ -1069,11 +1072,15 @@ ASSUMES = ["spec.md readings stated at the top of coq/theories/Arc/Spec.v (trunc
            "float operations are parameters shared by source and WebAssembly semantics; math.pow on floats and "
            "float % are not evaluated"]
 PARTIAL = ("clause 'source the analyzer rejects produces diagnostics, never a crash' is observed on a generated "
-           "stream of token soup, damaged programs and byte noise, not proved. Outside the modelled fragment: loops "
-           "(spec.md defines none: 'No loops'; the compiler's for-loops are not modelled), stateful variables ($=), "
-           "function calls, multi-output functions, series, strings, channels, units, flows and sequences. The "
-           "theorem excludes the nine signatures of coq/theories/Arc/Guard.v (known findings F13a-F13k), each with a "
-           "proved witness that the compiler diverges from spec.md there.")
+           "stream of token soup, damaged programs and byte noise, not proved. LOOPS: spec.md defines none ('No "
+           "loops'); the forms the compiler accepts (for cond, for {}, for x := range(..), break, continue) are "
+           "modelled with the conventional structured-programming reference semantics (with fuel) and covered by the "
+           "byte-for-byte code correspondence, the value correspondence and the monitor on every run, but NOT by the "
+           "theorems: C19_compile_correct_partial and C19_validates_partial are proved for loop-free functions. "
+           "Outside the modelled fragment: series iteration, stateful variables ($=), function calls, multi-output "
+           "functions, series, strings, channels, units, flows and sequences. The theorem excludes the nine "
+           "signatures of coq/theories/Arc/Guard.v (known findings), each with a proved witness that the compiler "
+           "diverges from spec.md there.")
 READY = True
 TECHNIQUE = ("Coq proof of compiler correctness (simulation by induction on expressions/statements) over a Gallina "
              "copy of the compiler's lowering + byte-exact and value-exact model/impl correspondence")
@@ -1091,7 +1098,9 @@ LEVEL_TEXT = ("Machine-checked Coq theorem C19_compile_correct_partial: for ever
               "results on boundary arguments (floats by bit pattern, via Coq's SpecFloat) must equal the model's, and a "
               "decidable monitor compares the implementation's results with the spec semantics.")
 LEVEL_NOTE = ("PARTIAL: the no-crash clause is observed on a fuzz stream, not proved; nine spec/compiler divergences are "
-              "known findings (one tag each; the theorem's guard is exactly their complement); loops, stateful variables, "
+              "known findings (one tag each; the theorem's guard is exactly their complement); spec.md defines no loops: "
+              "the compiler's loops are modelled with the conventional semantics and checked by correspondence + "
+              "monitor only (the theorems are for loop-free functions); stateful variables, "
               "calls, series, strings, channels, units, flows are not modelled; validation is proved for the model's "
               "validator (C19_validates_partial) and compared with wazero's verdict per case; instantiation is observed. Trusted: Coq kernel/vm_compute, "
               "the hand-written model (tied by byte/value correspondence), the harness, the generator, the readings of "
